@@ -675,8 +675,15 @@ static void flush_queue(void);
 static char altstack[65536];
 
 static void fault_line(const char* what, int sig) {
+    /* the first faulting thread reports and ends the process; a thread that faults while it does so waits (ending
+       the process here would cut the first one's report short) */
     static volatile int once = 0;
-    if (once++) _exit(3);
+    static pthread_t first;
+    if (__sync_fetch_and_add(&once, 1)) {
+        if (pthread_equal(first, pthread_self())) _exit(3);     /* a second signal on the reporting thread itself */
+        for (;;) pause();
+    }
+    first = pthread_self();
     int was_in_api = in_api || in_probe;
     in_stub = 100;
     flush_queue();
